@@ -168,6 +168,24 @@ func ruleC13For(c *Ctx, sub *ssa.Function, do, rr, pm *ssa.Call, first bool) {
 			c.obI("R13.2", st, "response-untouched", okW, "client code never writes a field of the http.Response (the reader sees status, headers and body unchanged); the keep-alive transport's draining wrapper is the one tabled exception", "store to http.Response field in "+fnName(fn))
 		}
 	}
+	// … nor edits them through their methods: no Set / Add / Del on the response's header map, no write to the shared
+	// or caller-supplied http.Client either (its fields are read concurrently by every call in flight)
+	for _, fn := range p.LibFuncs("rt/client") {
+		for _, ci := range allCalls(fn) {
+			if ci.Parent() != fn {
+				continue
+			}
+			n := calleeName(ci.Common())
+			if n != "(net/http.Header).Set" && n != "(net/http.Header).Add" && n != "(net/http.Header).Del" {
+				continue
+			}
+			recv, _ := callArgs(ci.Common())
+			if !vFieldLoad("net/http.Response", "Header", nil)(recv) && !vFieldLoadO("net/http.Response", "Header")(recv) {
+				continue
+			}
+			c.obD("R13.2", ci, "response-headers-untouched", false, "client code never edits the headers of the http.Response it hands to the reader", n+" on the response's headers in "+fnName(fn))
+		}
+	}
 	type acc struct{ m, field, via string }
 	for _, ac := range []acc{{"Code", "StatusCode", ""}, {"Message", "Status", ""}, {"Body", "Body", ""}, {"GetHeader", "Header", "(net/http.Header).Get"}, {"GetHeaders", "Header", "(net/http.Header).Values"}} {
 		f := p.Fn("(rt/client.response)." + ac.m)
@@ -188,7 +206,23 @@ func ruleC13For(c *Ctx, sub *ssa.Function, do, rr, pm *ssa.Call, first bool) {
 	for _, st := range fieldStores(nrf, "rt/client.response", "resp") {
 		c.obI("R13.2", st, "adapter-wraps-given-response", st.Val == ssa.Value(nrf.Params[0]), "the adapter wraps the response it is given", "")
 	}
-	c.min("R13.2", 7)
+	// each call gets its own adapter: newResponse hands out a value it has just made (an adapter taken from a pool or
+	// a cache is re-pointed at another call's response while a reader still holds it)
+	for _, r := range realReturns(nrf) {
+		if len(r.Results) != 1 {
+			continue
+		}
+		ok, bad := allOrigins(unboxed(r.Results[0]), func(o Origin) bool {
+			v := o.V
+			if ad, isLd := derefLoad(v); isLd {
+				v = ad
+			}
+			al, isAl := v.(*ssa.Alloc)
+			return isAl && al.Parent() == nrf
+		})
+		c.obI("R13.2", r, "adapter-made-for-this-call", ok, "the response adapter handed to the reader is made by this very call (never recycled: a reader may keep it, e.g. inside an APIError)", "origin "+describeOrigin(bad))
+	}
+	c.min("R13.2", 8)
 
 	// R13.3 precedence
 	recvDo, _ := callArgs(&do.Call)
@@ -274,11 +308,26 @@ func ruleC13For(c *Ctx, sub *ssa.Function, do, rr, pm *ssa.Call, first bool) {
 				continue
 			}
 			n, _ := structOf(fa.X.Type())
-			if typeFullName(n) != runtimeT {
+			if n != nil && typeFullName(n) == "net/http.Client" {
+				if al, isAl := fa.X.(*ssa.Alloc); isAl && al.Parent() == st.Parent() {
+					continue // a client this function is constructing
+				}
+				c.obD("R13.4", st, "http-client-not-written", false, "a call never writes a field of an http.Client it did not just construct (the lazily created shared client and a caller's per-operation client are used by concurrent calls)", "store to a field of an existing http.Client in "+fnName(st.Parent()))
 				continue
 			}
 			_, stt := structOf(fa.X.Type())
-			field := fieldNameOf(n, stt, fa.Field)
+			field := ""
+			if typeFullName(n) == runtimeT {
+				field = fieldNameOf(n, stt, fa.Field)
+			} else if stt != nil && fa.Field < stt.NumFields() {
+				// a Runtime field regrouped into an embedded struct unknown to the baseline
+				if _, moved := regroupedField(fa, runtimeT, stt.Field(fa.Field).Name()); moved {
+					field = stt.Field(fa.Field).Name()
+				}
+			}
+			if field == "" {
+				continue
+			}
 			// allowed: r.client inside the closure passed to clientOnce.Do in Submit
 			okW := false
 			whyW := "store to Runtime." + field + " on a call path in " + fnName(fn)
